@@ -309,6 +309,9 @@ def truth_table(ex, sh, tag):
                 b = z3.Bool('has-$-reference(%s)' % vn)
                 yes, no = ex.check(b), ex.check(z3.Not(b))
                 t[('$', vn)] = yes if yes != no else None
+                b = z3.Bool('is-empty(%s)' % vn)       # asked only by code that looks whether a cell is empty
+                yes, no = ex.check(b), ex.check(z3.Not(b))
+                t[('empty', vn)] = yes if yes != no else None
     # tags that happen to be the same word (asked only by code that compares tags)
     tags = [tag + '.tag0', tag + '.tag1'] + ['%s.ex%d.tag' % (tag, j) for j in range(len(sh.tables)) if j not in sh.untagged]
     for a, b in itertools.combinations(tags, 2):
@@ -334,11 +337,11 @@ class Realizer:
             return n
         self.ok = True
         for tag, sh in scen:
-            for (k, j, c), v in [kv for kv in truths[tag].items() if kv[0][0] not in ('$', 'tag')]:
+            for (k, j, c), v in [kv for kv in truths[tag].items() if kv[0][0] not in ('$', 'tag', 'empty')]:
                 if v:
                     parent[find('ph%d' % k)] = find('%s.c%d.%d' % (tag, j, c))
         for tag, sh in scen:
-            for (k, j, c), v in [kv for kv in truths[tag].items() if kv[0][0] not in ('$', 'tag')]:
+            for (k, j, c), v in [kv for kv in truths[tag].items() if kv[0][0] not in ('$', 'tag', 'empty')]:
                 if v is False and find('ph%d' % k) == find('%s.c%d.%d' % (tag, j, c)):
                     self.ok = False
             for j, tb in enumerate(sh.tables):
@@ -396,7 +399,9 @@ class Realizer:
                 for c in range(nc):
                     vn = '%s.ex%d.r%d.c%d' % (tag, j, r, c)
                     dollar = self.truths[tag].get(('$', vn))
-                    if dollar is True:
+                    if self.truths[tag].get(('empty', vn)) is True:
+                        v = ''                                        # an empty Examples cell
+                    elif dollar is True:
                         v = 'US${1}z%d' % len(self.val)               # `${1}` = capture group 1 of the template regex
                     elif dollar is False:
                         v = '%s%d' % ([x for x in VAL_TEXTS if '$' not in x][len(self.val) % 5], len(self.val))
